@@ -8,7 +8,7 @@
     rendered into the body (error body, end-stream frame, trailer frame), [DTrailers] the end
     rendered as HTTP trailers, [DDone] the (ghost) mark that the end has been dealt with. *)
 From VG Require Import Model.Bytes Model.Headers Model.RespMeta Model.Response Model.Request Model.Serve.
-From VG Require Import Proofs.ResponseProofs.
+From VG Require Import Proofs.ResponseProofs Proofs.NoPanicProofs.
 Open Scope Z_scope.
 
 (** Exactly one head, first; then body writes and flushes; then exactly one end, carried by at
@@ -22,6 +22,16 @@ Theorem C03_one_head_one_end_nothing_after : forall cx h s r wr res,
     (tail = [] \/ exists t, is_term t = true /\ tail = [t]) /\ forallb is_flush fl = true.
 Proof. exact finished_response_shape. Qed.
 Print Assumptions C03_one_head_one_end_nothing_after.
+
+(** ... and serving never panics, so this is every response: *)
+Theorem C03_every_response_is_well_formed : forall cx h s r wr res,
+  serve_response cx h s = (r, wr, res) ->
+  exists code hd eh body tail fl,
+    c_out (r_core r) = DHead code hd eh :: body ++ tail ++ DDone :: fl /\
+    forallb (fun e => negb (is_head e) && negb (is_term e) && negb (is_done e)) body = true /\
+    (tail = [] \/ exists t, is_term t = true /\ tail = [t]) /\ forallb is_flush fl = true.
+Proof. intros cx h s r wr res H. eapply finished_response_shape; [exact H|]. eapply serve_response_never_panics; eauto. Qed.
+Print Assumptions C03_every_response_is_well_formed.
 
 (** The same discipline holds at every moment while the handler is still running (also when
     serving later panics): the log is always accepted by the automaton [orun], in the state the
